@@ -174,7 +174,9 @@ def repeat(state, repetitions_count: uint, body: CodeBlock) -> bytes:
     addr = state["emit_address"]
     result = b""
     for _ in range(repetitions_count):
-        chunk = state["compiler"].compile_block({**state, "context": "repeat"}, body, addr)
+        # Labels cannot be defined inside the body, so it stays in the local
+        # label scope of the '.repeat' statement itself
+        chunk = state["compiler"].compile_block({**state, "context": "repeat"}, body, addr, state["local_symbol_prefix"])
         if isinstance(chunk, BaseDeferred):
             addr += chunk.length()
         else:
